@@ -19,9 +19,10 @@ def Resolved (tm : TM) (t : TRef) : Prop := ∃ j, t.strip = .named j ∧ nameOf
 /-- what a successful visit of `t` by the reducer guarantees -/
 def Visited (tm : TM) (t : TRef) : Prop := t.strip = .nil ∨ Resolved cfg tm t
 
-/-- every entry is a nameable type and the names (keys of the Go map) are pairwise distinct -/
+/-- every entry is a type object whose constructor succeeded (so it has a valid name) and the names (keys of the Go
+map) are pairwise distinct -/
 def Inv (tm : TM) : Prop :=
-  (∀ i ∈ tm, nameOf cfg i ≠ "") ∧ tm.Pairwise (fun a b => nameOf cfg a ≠ nameOf cfg b)
+  (∀ i ∈ tm, ctorErr cfg i = none) ∧ tm.Pairwise (fun a b => nameOf cfg a ≠ nameOf cfg b)
 
 /-- all steps `typeMapReducer` takes for the entry were recursive visits (no parked error) of registered types -/
 def ClosedE (tm : TM) (i : Nat) : Prop :=
@@ -99,7 +100,7 @@ theorem inv_name_inj {tm : TM} (hinv : Inv cfg tm) {a b : Nat} (ha : a ∈ tm) (
   rw [h1] at h2
   exact Option.some.inj h2
 
-theorem inv_append_one {tm : TM} {e : Nat} (hinv : Inv cfg tm) (hname : nameOf cfg e ≠ "")
+theorem inv_append_one {tm : TM} {e : Nat} (hinv : Inv cfg tm) (hname : ctorErr cfg e = none)
     (hfresh : ∀ x ∈ tm, nameOf cfg x ≠ nameOf cfg e) : Inv cfg (tm ++ [e]) := by
   refine ⟨?_, ?_⟩
   · intro i hi
@@ -233,7 +234,7 @@ theorem reduce_spec : ∀ fuel tm t tm', reduce cfg fuel tm t = .ok tm' → Inv 
         | none =>
           simp only [hl] at h
           have hfresh := lookup_none cfg hl
-          have hinv1 : Inv cfg (tm ++ [i]) := inv_append_one cfg hinv hn hfresh
+          have hinv1 : Inv cfg (tm ++ [i]) := inv_append_one cfg hinv hce hfresh
           have sp := runSteps_spec cfg (reduce cfg fuel) ih (stepsOf cfg i) (tm ++ [i]) tm' h hinv1
           obtain ⟨l, hl'⟩ := sp.ext
           have hi_mem : i ∈ tm' := by rw [hl']; simp
